@@ -79,7 +79,7 @@ def prop_set(draw, kind_hint=None, values=None):
 
 
 @st.composite
-def program(draw, weights=None, min_steps=8, max_steps=30, prefixes=PREFIXES, seed_bare=True, fancy_names=True, cond_rate=4, prop_values=None, restart_rate=None):
+def program(draw, weights=None, min_steps=8, max_steps=30, prefixes=PREFIXES, seed_bare=True, fancy_names=True, cond_rate=4, prop_values=None, restart_rate=None, focus=False):
     w = dict(DEFAULT_WEIGHTS)
     if weights:
         w.update(weights)
@@ -100,6 +100,8 @@ def program(draw, weights=None, min_steps=8, max_steps=30, prefixes=PREFIXES, se
     ]
     n = draw(st.integers(min_steps, max_steps))
     opst = weighted(w)
+    CAL = ["c1", "c1", "c1", "c1", "b1", "h1"] if focus else CAL_SLOTS
+    AB = ["a1", "a1", "a1", "h2"] if focus else AB_SLOTS
 
     def maybe_cond():
         if cond_rate and draw(st.integers(0, cond_rate)) == 0:
@@ -113,7 +115,7 @@ def program(draw, weights=None, min_steps=8, max_steps=30, prefixes=PREFIXES, se
         if op in ("PUT", "PUT-invalid"):
             fam = draw(st.sampled_from(["cal", "cal", "cal", "card", "other"]))
             if fam == "cal":
-                slot = draw(st.sampled_from(CAL_SLOTS))
+                slot = draw(st.sampled_from(CAL))
                 name = draw(st.sampled_from(ics_names))
                 if op == "PUT":
                     raw = draw(st.sampled_from(cal_bodies))["raw"] if draw(st.integers(0, 3)) else draw(gen.calendar_object())["raw"]
@@ -121,7 +123,7 @@ def program(draw, weights=None, min_steps=8, max_steps=30, prefixes=PREFIXES, se
                     raw = draw(st.sampled_from(bad_cal))[1]
                 ctype = draw(st.sampled_from(["text/calendar", "text/calendar", "text/calendar; charset=utf-8"]))
             elif fam == "card":
-                slot = draw(st.sampled_from(AB_SLOTS))
+                slot = draw(st.sampled_from(AB))
                 name = draw(st.sampled_from(vcf_names))
                 if op == "PUT":
                     raw = draw(st.sampled_from(card_bodies))["raw"]
@@ -137,15 +139,15 @@ def program(draw, weights=None, min_steps=8, max_steps=30, prefixes=PREFIXES, se
         elif op == "POST":
             fam = draw(st.sampled_from(["cal", "card"]))
             if fam == "cal":
-                steps.append({"op": "POST", "fe": fe, "afe": afe, "coll": draw(st.sampled_from(CAL_SLOTS)), "ctype": "text/calendar", "body": enc_body(draw(st.sampled_from(cal_bodies + [{"raw": bad_cal[0][1]}]))["raw"])})
+                steps.append({"op": "POST", "fe": fe, "afe": afe, "coll": draw(st.sampled_from(CAL)), "ctype": "text/calendar", "body": enc_body(draw(st.sampled_from(cal_bodies + [{"raw": bad_cal[0][1]}]))["raw"])})
             else:
-                steps.append({"op": "POST", "fe": fe, "afe": afe, "coll": draw(st.sampled_from(AB_SLOTS)), "ctype": "text/vcard", "body": enc_body(draw(st.sampled_from(card_bodies))["raw"])})
+                steps.append({"op": "POST", "fe": fe, "afe": afe, "coll": draw(st.sampled_from(AB)), "ctype": "text/vcard", "body": enc_body(draw(st.sampled_from(card_bodies))["raw"])})
         elif op == "DELETE":
             fam = draw(st.sampled_from(["cal", "cal", "card", "other"]))
             if fam == "cal":
-                slot, name = draw(st.sampled_from(CAL_SLOTS)), draw(st.sampled_from(ics_names))
+                slot, name = draw(st.sampled_from(CAL)), draw(st.sampled_from(ics_names))
             elif fam == "card":
-                slot, name = draw(st.sampled_from(AB_SLOTS)), draw(st.sampled_from(vcf_names))
+                slot, name = draw(st.sampled_from(AB)), draw(st.sampled_from(vcf_names))
             else:
                 slot, name = draw(st.sampled_from(["x1", "h1", "c1"])), draw(st.sampled_from(other_names))
             steps.append({"op": "DELETE", "fe": fe, "afe": afe, "coll": slot, "name": name, "cond": [c for c in maybe_cond() if c["hdr"] == "If-Match"]})
@@ -163,7 +165,7 @@ def program(draw, weights=None, min_steps=8, max_steps=30, prefixes=PREFIXES, se
             steps.append({"op": "PROPPATCH", "fe": fe, "afe": afe, "coll": draw(st.sampled_from(["c1", "c1", "a1", "c2", "b1", "x1", "h1"])), "set": sets, "remove": removes})
         elif op == "GET":
             fam = draw(st.booleans())
-            steps.append({"op": "GET", "method": draw(st.sampled_from(["GET", "HEAD"])), "fe": fe, "afe": afe, "coll": draw(st.sampled_from(CAL_SLOTS if fam else AB_SLOTS)), "name": draw(st.sampled_from(ics_names if fam else vcf_names)), "cond": [c for c in maybe_cond() if c["hdr"] == "If-None-Match"]})
+            steps.append({"op": "GET", "method": draw(st.sampled_from(["GET", "HEAD"])), "fe": fe, "afe": afe, "coll": draw(st.sampled_from(CAL if fam else AB)), "name": draw(st.sampled_from(ics_names if fam else vcf_names)), "cond": [c for c in maybe_cond() if c["hdr"] == "If-None-Match"]})
         elif op == "PROPFIND":
             steps.append({"op": "PROPFIND", "fe": fe, "afe": afe, "coll": draw(st.sampled_from(list(CAL_SLOTS) + AB_SLOTS)), "depth": draw(st.sampled_from([0, 1])), "allprop": draw(st.booleans())})
         elif op == "REPORT":
